@@ -1,0 +1,14 @@
+//go:build verif
+
+// Contracts for gzv (contract-based deductive verification, /verif). Comment-only file.
+package monc
+
+// C06 / C07: every cached mongo model of the process - built over a cluster configuration or over one node - shares the one
+// package-level single-flight barrier (concurrent loads of one key are suppressed across models), the package statistics and
+// mongo's not-found error
+//@ func NewModel
+//@   property C06 C07
+//@   call New#0: assert arg_barrier == singleFlight && arg_errNotFound == mongo.ErrNoDocuments && arg_st == stats && sameSlice(arg_opts, opts)
+//@ func NewNodeModel
+//@   property C06 C07
+//@   call NewNode#0: assert arg_barrier == singleFlight && arg_errNotFound == mongo.ErrNoDocuments && arg_st == stats && arg_rds == rds && sameSlice(arg_opts, opts)
